@@ -17,7 +17,7 @@ PROPS["C03"] = {
     ],
     "engine": "rapid",
     "technique": "property-based testing with layout-aware renderers (model = the generator's record set), metamorphic re-rendering",
-    "level_text": "Sampled exploration: per format a few hundred (quick) to ~50 000 (thorough) generated (record set, layout, layout) triples; the oracle is exact (the generator knows what it wrote). Says nothing about layouts the renderers cannot produce.",
+    "level_text": "Sampled exploration: 1 500 (quick) / 16 x 15 000 (thorough) generated (record set, layout, layout) triples per format, i.e. 18 000 / 2.9 million cases; the oracle is exact (the generator knows what it wrote). Says nothing about layouts the renderers cannot produce.",
     "level_note": "Trusted: the 12 renderers (validated against repository fixtures on every run) and the per-format expectation function (installed filter, go.mod stdlib/replace, npm dedup).",
     "legs": [{"fam": "extractfam", "run": "^(TestC03|TestC03_fixtures)$"}],
     "timeout": {"quick": 600, "thorough": 1800},
@@ -35,7 +35,7 @@ PROPS["C14"] = {
     ],
     "engine": "rapid+enumeration",
     "technique": "harvest-and-check: enumeration of repository fixtures plus property-based generation of extractor inputs",
-    "level_text": "Sampled exploration of what extractors emit (all repository fixtures exhaustively, generated inputs by sampling); each emitted package is checked against the exact conversions.",
+    "level_text": "Sampled exploration of what extractors emit: all ~460 usable repository fixtures of the 57 offline extractors exhaustively (~990 packages), plus 8 000 (quick) / 16 x 50 000 (thorough) generated extractor inputs; each emitted package is checked against the exact conversions.",
     "level_note": "Trusted: the production-path table used to place fixtures, the field-by-field comparison code.",
     "legs": [{"fam": "extractfam", "run": "^(TestC14_fixtures|TestC14_rendered)$"}],
     "timeout": {"quick": 600, "thorough": 1800},
@@ -49,10 +49,12 @@ PROPS["C15"] = {
         "generated purls are valid for their type under packageurl-go's own rules (cran has a version, conan has no namespace, qualifier keys are lower-case identifiers with non-empty values, sub-path segments are not '.' or '..')",
         "purl types range over the types the built-in extractors emit (cross-checked at run time with the C14 harvest) ",
         "names, versions and locations are free of control characters (tag-value and XML cannot carry them)",
+        "the output formats are part of the case; while known finding c15.spdx_tag_value_supplier is listed the generator leaves spdx23-tag-value out (every such export is unreadable). VERIF_C15_TAGVALUE_PATCHED=1 adds an exploratory variant in which the harness repairs the PackageSupplier lines before scanning; it is off by default and not part of the verdict",
+        "the expected purl strings are printed by packageurl-go from the generated fields, not by the library's PackageURL.String",
     ],
     "engine": "rapid",
     "technique": "round-trip property-based testing (export then import with the library's own code)",
-    "level_text": "Sampled exploration: a few hundred (quick) to ~40 000 (thorough) generated inventories x 5 formats.",
+    "level_text": "Sampled exploration: 1 200 (quick) / 16 x 8 000 (thorough) generated inventories, each exported to and read back from every format not excluded by a known finding.",
     "level_note": "Trusted: packageurl-go as the normaliser on both sides; the harness extractor.",
     "legs": [{"fam": "extractfam", "run": "^TestC15$"}],
     "timeout": {"quick": 600, "thorough": 1800},
